@@ -239,6 +239,10 @@ void __wasm_import_verif_val_sinks_fetch_names(int32_t n, uint8_t *ret) {
   *((uint8_t **) (ret + 0)) = list; *((size_t *) (ret + P)) = fetch_len;
 }
 
+/* the host side of take-str(string, list<u32>): flat (pointer, length, pointer, length) */
+static unsigned take_calls; static uint8_t *take_sp, *take_lp; static size_t take_sl, take_ll;
+int32_t __wasm_import_verif_val_sinks_take_str(uint8_t *sp, size_t sl, uint8_t *lp, size_t ll) { take_calls++; take_sp = sp; take_sl = sl; take_lp = lp; take_ll = ll; return 7; }
+
 /* a buffer as the host obtains it from cabi_realloc */
 static uint8_t *host_alloc(size_t size, size_t align) {
   uint8_t *p = (uint8_t *) cabi_realloc(NULL, 0, align, size);
@@ -494,6 +498,18 @@ void c10_c11_import_result_list_of_strings(void) {
   ASSERT(r.len == fetch_len, "C10: the list the host returned arrives with its length");
   for (size_t i = 0; i < fetch_len; i++) ASSERT(r.ptr[i].len == fetch_inner && (!fetch_inner || r.ptr[i].ptr[0] == fetch_unit), "C10: each string the host returned arrives unchanged");
   valprobe_list_string_free(&r);   /* C11: the caller owns the result; the generated helper releases every string and the list (leak check) */
+}
+/* a string and a canonical list passed to an import: the wrapper hands over (pointer, length) and touches nothing else, so the pointers and
+ * lengths are arbitrary here - EVERY length, not a bounded one (a wrapper that narrowed a length would be seen at 256 or 65536) */
+void c10_import_string_and_list_any_length(void) {
+  valprobe_string_t s; s.ptr = (cu_t *) nondet_uint(); s.len = nondet_uint();
+  valprobe_list_u32_t l; l.ptr = (uint32_t *) nondet_uint(); l.len = nondet_uint();
+  valprobe_string_t s0 = s; valprobe_list_u32_t l0 = l;
+  uint32_t r = verif_val_sinks_take_str(&s, &l);
+  ASSERT(take_calls == 1 && r == 7, "C10: exactly one core call, its result returned");
+  ASSERT(take_sp == (uint8_t *) s0.ptr && take_sl == s0.len, "C10: the string crosses as exactly its pointer and its length in code units, for every length");
+  ASSERT(take_lp == (uint8_t *) l0.ptr && take_ll == l0.len, "C10: the list crosses as exactly its pointer and its element count, for every length");
+  ASSERT(s.ptr == s0.ptr && s.len == s0.len && l.ptr == l0.ptr && l.len == l0.len, "C11: import arguments are left untouched");
 }
 /* import arguments are borrowed: passed, left untouched, still owned (and freed) by the caller */
 void c11_import_arguments_untouched(void) {
